@@ -413,6 +413,76 @@ theorem ecs_ncat_ok (e : Ecs) (s : List Nat) (o : Oracle) (hwf : e.WF) (n : Nat)
       simp only [Ecs.len] at k2; omega
     · exact k3
 
+/-- **ecs_oom_atomic_more** — the remaining growing operations: a failed nrcat or amend leaves the string
+    exactly as it was (amend shrinks in place and grows through setlen before it moves anything). -/
+theorem ecs_oom_atomic_more (e : Ecs) (o : Oracle) :
+    (∀ s x, (e.nrcat s o).ret = .error x → (e.nrcat s o).ecs = e) ∧
+    (∀ pos len repl x, (e.amend pos len repl o).ret = .error x → (e.amend pos len repl o).ecs = e) := by
+  refine ⟨?_, ?_⟩
+  · intro s x h
+    unfold Ecs.nrcat at h ⊢
+    simp only at h ⊢
+    split <;> simp_all
+  · intro pos len repl x
+    unfold Ecs.amend
+    simp only
+    generalize (if pos ≥ e.len then e.len else pos) = p
+    generalize (if len > e.len - p then e.len - p else len) = l
+    by_cases h1 : l > repl.length
+    · simp [h1]
+    · by_cases h2 : l < repl.length
+      · simp only [h1, h2, ↓reduceIte]
+        generalize e.setlen (e.len + repl.length - l) o = r
+        cases hr : r.ret <;> simp
+      · simp [h1, h2]
+
+/-- non-vacuity: a refused growth inside amend is reported and changes nothing -/
+example : (Ecs.amend { chars := [1, 2, 3], capa := 3, hasPtr := true } 1 1 [7, 8, 9] [false]).ret = .error .enomem ∧
+          (Ecs.amend { chars := [1, 2, 3], capa := 3, hasPtr := true } 1 1 [7, 8, 9] [false]).ecs
+            = { chars := [1, 2, 3], capa := 3, hasPtr := true } := by constructor <;> rfl
+
+/-- what amend computes when it succeeds, on concrete instances of its three branches
+    (shrinking, growing, same length): old[0,pos) ++ repl ++ old[pos+len, ..) -/
+example : (Ecs.amend { chars := [1, 2, 3, 4, 5], capa := 8, hasPtr := true } 1 3 [9] []).ecs.chars = [1, 9, 5] ∧
+          (Ecs.amend { chars := [1, 2, 3, 4, 5], capa := 8, hasPtr := true } 1 1 [7, 8, 9] []).ecs.chars = [1, 7, 8, 9, 3, 4, 5] ∧
+          (Ecs.amend { chars := [1, 2, 3, 4, 5], capa := 8, hasPtr := true } 3 2 [7, 8] []).ecs.chars = [1, 2, 3, 7, 8] := by decide
+
+/-- **ecs_nccat_prefix** — nccat appends character by character: when it succeeds the string is the old one
+    followed by `n` copies; when a growth is refused on the way the string is the old one followed by
+    fewer than `n` copies (it is never damaged, but the operation is NOT all-or-nothing), and the
+    representation invariant holds either way. -/
+theorem ecs_nccat_prefix (c : Nat) : ∀ (n : Nat) (e : Ecs) (o : Oracle), e.WF →
+    (∃ j, j ≤ n ∧ (e.nccat c n o).ecs.chars = e.chars ++ List.replicate j c ∧
+          ((e.nccat c n o).ret = .ok (e.len + n) ∧ j = n ∨ (e.nccat c n o).ret = .error .enomem ∧ j < n)) ∧
+    (e.nccat c n o).ecs.WF := by
+  intro n
+  induction n with
+  | zero => intro e o hwf; exact ⟨⟨0, Nat.le_refl _, by simp [Ecs.nccat], Or.inl ⟨by simp [Ecs.nccat], rfl⟩⟩, by simpa [Ecs.nccat] using hwf⟩
+  | succ n ih =>
+    intro e o hwf
+    unfold Ecs.nccat
+    simp only
+    cases hr : (e.ncat [c] o).ret with
+    | error x =>
+      have hat := (ecs_oom_atomic e o).2.2.2 [c] x hr
+      cases x
+      simp only [hat]
+      exact ⟨⟨0, Nat.zero_le _, by simp, Or.inr ⟨by simp, Nat.succ_pos _⟩⟩, hwf⟩
+    | ok v =>
+      obtain ⟨h1, h2, h3⟩ := ecs_ncat_ok e [c] o hwf v hr
+      simp only
+      obtain ⟨⟨j, hj, hc, hcase⟩, hw⟩ := ih (e.ncat [c] o).ecs (e.ncat [c] o).rest h3
+      refine ⟨⟨j + 1, by omega, ?_, ?_⟩, hw⟩
+      · rw [hc, h1, List.replicate_succ]; simp
+      · have hlen : (e.ncat [c] o).ecs.len = e.len + 1 := by simp [Ecs.len, h1]
+        rcases hcase with ⟨hk, hjn⟩ | ⟨hk, hjn⟩
+        · left; refine ⟨?_, by omega⟩; rw [hk, hlen]; congr 1; omega
+        · right; exact ⟨hk, by omega⟩
+
+/-- non-vacuity: an empty string without a buffer, the only growth request refused -/
+example : (Ecs.nccat { chars := [], capa := 0, hasPtr := false } 9 3 [false]).ret = .error .enomem := by
+  simp [Ecs.nccat, Ecs.ncat, Ecs.resizeForNcat, Ecs.growLoop, Ecs.setcapa, Oracle.next, Ecs.len]
+
 /-! ### arr (C19's model) -/
 
 /-- **arr_insert_oom_atomic** — hawk_arr_insert under any allocator behaviour: an insert that does
